@@ -134,6 +134,19 @@ def check(ctx, doc, ops, cls):
         carrier = getattr(ctx, "_force_carrier", None) or ctx.rng.choice(["tuple", "iter", "generator", "map"])
         case["operations_given_as"] = carrier
         ctx.count("operation_lists_given_as_other_iterables")
+    if isinstance(doc, (dict, list)) and "containers" not in case and (getattr(ctx, "_force_stream", None) or ctx.rng.random() < 0.08):
+        # the document handed over as JSON text, a text stream or a byte stream in a Unicode encoding (with and without a
+        # byte-order mark; json itself recognises utf-8/16/32 from the bytes)
+        from .c08 import STREAM_FORMS, stream_of
+
+        form = getattr(ctx, "_force_stream", None) or ctx.rng.choice(STREAM_FORMS)
+        raw = ctx.rng.random() < 0.5
+        try:
+            d = stream_of(doc, form, raw)
+            case["document_given_as"] = form
+            ctx.count("documents_given_as_text_or_streams")
+        except (UnicodeEncodeError, ValueError):
+            d = copy.deepcopy(doc)
     given = {"list": lambda: opsc, "tuple": lambda: tuple(opsc), "iter": lambda: iter(opsc), "generator": lambda: (op_ for op_ in opsc), "map": lambda: map(dict, opsc)}[carrier]()
     if carrier != "list" and ctx.rng.random() < 0.5:
         o = impl.call(lambda: jsonpath.JSONPatch(given).apply(d))
@@ -536,6 +549,11 @@ def replay(case, ctx):
         check_builder(ctx, case["doc"], case["ops"], case["pointer_class"])
         return
     ctx._force_builder = bool(case.get("builder_from_parts"))
+    if case.get("document_given_as"):
+        ctx._force_stream = case["document_given_as"]
+        for _ in range(4):
+            check(ctx, case["doc"], case["ops"], case.get("class", "replay"))
+        return
     if case.get("operations_given_as"):
         ctx._force_carrier = case["operations_given_as"]
         for _ in range(4):
